@@ -55,9 +55,9 @@ UninstRank(k) == CASE k = "Service" -> 6 [] k = "Job" -> 8 [] k = "CustomResourc
                    [] k = "Gadget" -> 101 [] k = "Widget" -> 102 [] OTHER -> 200
 
 \* ids are "r1", "r2", ... : order by the string (TLC has no string <, so use an explicit table)
-IdRank(id) == CASE id = "r1" -> 1 [] id = "r2" -> 2 [] id = "r3" -> 3 [] id = "r4" -> 4 [] id = "r5" -> 5
+IdRank(id) == CASE id = "by1" -> 1 [] id = "c1" -> 5 [] id = "c2" -> 6
                 [] id = "h1" -> 11 [] id = "h2" -> 12 [] id = "h3" -> 13 [] id = "h4" -> 14
-                [] id = "by1" -> 21 [] id = "c1" -> 31 [] id = "c2" -> 32 [] OTHER -> 99
+                [] id = "r1" -> 21 [] id = "r2" -> 22 [] id = "r3" -> 23 [] id = "r4" -> 24 [] id = "r5" -> 25 [] OTHER -> 99
 
 \* sequence of the ids of S ordered by key(_) (a total order is assumed)
 OrderBy(S, key(_)) ==
